@@ -13,6 +13,7 @@ import (
 	"fmt"
 	"math/rand"
 	"os"
+	"sort"
 	"time"
 
 	"github.com/hugelgupf/p9/p9"
@@ -74,9 +75,20 @@ func build(t *wirecodec.Table, kind string, tag uint16, rng *rand.Rand) []byte {
 		binary.LittleEndian.PutUint16(b[8:], uint16(2+rng.Intn(65000)))
 		return frame(t.Layout["Twalk"].ID, b)
 	case "overstring":
+		if rng.Intn(2) == 0 {
+			// the last string of the body claims one or two bytes more than are there
+			b := t.EncodeBody("Twalk", wirecodec.Values{"fid": 1, "newfid": 9, "names": []string{"a", "bcd"}})
+			binary.LittleEndian.PutUint16(b[len(b)-5:], uint16(4+rng.Intn(2)))
+			return frame(t.Layout["Twalk"].ID, b)
+		}
 		b := t.EncodeBody("Tlcreate", wirecodec.Values{"fid": 1, "name": "abc", "flags": 0, "mode": 0, "gid": 0})
 		binary.LittleEndian.PutUint16(b[4:], uint16(len(b)+rng.Intn(60000)))
 		return frame(t.Layout["Tlcreate"].ID, b)
+	case "truncated":
+		names := tNames(t)
+		n := names[rng.Intn(len(names))]
+		b := t.EncodeBody(n, sampleValues(t, n))
+		return frame(t.Layout[n].ID, b[:rng.Intn(len(b))])
 	case "paymismatch":
 		b := t.EncodeBody("Twrite", wirecodec.Values{"fid": 2, "offset": 0, "data": []byte("0123456789")})
 		binary.LittleEndian.PutUint32(b[12:], uint32(11+rng.Intn(100000)))
@@ -96,6 +108,132 @@ func build(t *wirecodec.Table, kind string, tag uint16, rng *rand.Rand) []byte {
 		return b[:7+rng.Intn(len(b)-8)]
 	}
 	panic("unknown kind " + kind)
+}
+
+// tNames lists the request types of the table.
+func tNames(t *wirecodec.Table) []string {
+	var l []string
+	for n := range t.Layout {
+		if n[0] == 'T' {
+			l = append(l, n)
+		}
+	}
+	sort.Strings(l)
+	return l
+}
+
+// sampleValues gives every variable-length field of a message some content.
+func sampleValues(t *wirecodec.Table, name string) wirecodec.Values {
+	v := wirecodec.Values{}
+	for _, f := range t.Layout[name].F {
+		switch f.Kind {
+		case "str":
+			v[f.Name] = "abc"
+		case "strs":
+			v[f.Name] = []string{"ab", "c"}
+		case "data":
+			v[f.Name] = []byte("hello")
+		}
+	}
+	return v
+}
+
+// sweep: for every request type, every proper prefix of a well-formed body, and the last
+// string's length raised by one and by two, each as a well-delimited frame followed by a
+// good request: the bad frame must be answered Rlerror, the good one served (Frames.tla:
+// kinds truncated / overstring followed by good).
+func sweep(t *wirecodec.Table, shard, nshard int, o *out) {
+	for ti, name := range tNames(t) {
+		if ti%nshard != shard {
+			continue
+		}
+		body := t.EncodeBody(name, sampleValues(t, name))
+		type bad struct {
+			desc string
+			b    []byte
+		}
+		var cases []bad
+		for k := 0; k < len(body); k++ {
+			cases = append(cases, bad{fmt.Sprintf("%s body cut to %d of %d bytes", name, k, len(body)), body[:k]})
+		}
+		fs := t.Layout[name].F
+		if len(fs) > 0 && (fs[len(fs)-1].Kind == "str" || fs[len(fs)-1].Kind == "strs") {
+			last := 3
+			if fs[len(fs)-1].Kind == "strs" {
+				last = 1
+			}
+			for _, d := range []int{1, 2} {
+				b := append([]byte{}, body...)
+				binary.LittleEndian.PutUint16(b[len(b)-last-2:], uint16(last+d))
+				cases = append(cases, bad{fmt.Sprintf("%s whose last string claims %d bytes with %d present", name, last+d, last), b})
+			}
+		}
+		auto := puppet.NewAuto()
+		srv := p9.NewServer(&puppet.Attacher{C: auto.C})
+		raw := peer.NewRaw(t)
+		r, w := raw.ServerEnds()
+		done := make(chan struct{})
+		crashed := ""
+		go func() {
+			defer close(done)
+			defer func() {
+				if p := recover(); p != nil {
+					crashed = fmt.Sprint(p)
+				}
+			}()
+			srv.Handle(r, w)
+		}()
+		next := func() (*wirecodec.Frame, string) {
+			fb, ok, to := raw.FR.Next(5 * time.Second)
+			if to || !ok {
+				if crashed != "" {
+					return nil, "no reply: the server panicked: " + crashed
+				}
+				return nil, "no reply"
+			}
+			f, err := t.Decode(fb)
+			if err != nil {
+				return nil, "malformed reply: " + err.Error()
+			}
+			return f, ""
+		}
+		nouid := uint64(0xFFFFFFFF)
+		raw.Send("Tversion", 0xFFFF, wirecodec.Values{"msize": msize, "version": "9P2000.L.Google.7"})
+		next()
+		raw.Send("Tattach", 900, wirecodec.Values{"fid": 1, "afid": nouid, "uname": "", "aname": "", "n_uname": nouid})
+		if f, e := next(); e != "" || f.Name != "Rattach" {
+			o.Findings = append(o.Findings, "sweep "+name+": setup failed")
+			auto.Stop()
+			continue
+		}
+		for i, c := range cases {
+			o.Cases++
+			o.Frames += 2
+			tag := uint16(10 + i%1000)
+			raw.SendBytes(append(hdr(uint32(7+len(c.b)), t.Layout[name].ID, tag), c.b...))
+			f, e := next()
+			if e != "" {
+				o.Findings = append(o.Findings, fmt.Sprintf("%s: %s (Frames.tla: Rlerror, connection continues)", c.desc, e))
+				break
+			}
+			if f.Name != "Rlerror" {
+				o.Findings = append(o.Findings, fmt.Sprintf("%s: answered %s, Frames.tla: Rlerror", c.desc, f.Name))
+				break
+			}
+			raw.Send("Tgetattr", tag+1, wirecodec.Values{"fid": 1, "request_mask": []string{"mode"}})
+			f, e = next()
+			if e != "" || f.Name != "Rgetattr" || f.Tag != tag+1 {
+				o.Findings = append(o.Findings, fmt.Sprintf("%s: the well-formed request after it was not served (%s %v)", c.desc, e, f))
+				break
+			}
+		}
+		raw.Hangup()
+		select {
+		case <-done:
+		case <-time.After(3 * time.Second):
+		}
+		auto.Stop()
+	}
 }
 
 func run(t *wirecodec.Table, v *vec, seed int64, o *out) {
@@ -319,9 +457,13 @@ func main() {
 	nshard := flag.Int("nshard", 1, "")
 	seed := flag.Int64("seed", 1, "")
 	reps := flag.Int("reps", 1, "concretisations per stream")
+	doSweep := flag.Bool("sweep", false, "also sweep every prefix of every request type's body")
 	flag.Parse()
 	t := wirecodec.MustLoad()
 	o := &out{}
+	if *doSweep {
+		sweep(t, *shard, *nshard, o)
+	}
 	if *sizes != "" {
 		sf, err := os.Open(*sizes)
 		if err != nil {
